@@ -83,6 +83,10 @@ def gen_case(rng, gens=GENERATORS, max_total=6):
     while sum(sizes) > max_total:
         sizes[sizes.index(max(sizes))] -= 1
     slates = {b: ["%s%d" % (b.lower(), i + 1) for i in range(s)] for b, s in zip(blocs, sizes)}
+    if rng.random() < 0.3:
+        # candidate names of very different lengths (and with spaces): anything that stores names in fixed-width arrays shows here
+        pools = {"A": ["Al", "Bo", "Cy"], "B": ["Charlotte", "Dominique St-Pierre", "Ev"], "C": ["x", "Maximilian", "Zoë Q"]}
+        slates = {b: pools[b][:s] for b, s in zip(blocs, sizes)}
     props = dict(zip(blocs, simplex(rng, nb)))
     if gen == "CambridgeSampler":
         # needs a majority bloc; the default picks the first bloc with prop >= .5
@@ -130,6 +134,23 @@ def gen_case(rng, gens=GENERATORS, max_total=6):
     return case
 
 
+def _l1(v, c):
+    import numpy as np
+
+    return float(np.abs(np.asarray(v, dtype=float) - np.asarray(c, dtype=float)).sum())
+
+
+def _directional(v, c):
+    """an asymmetric cost: a candidate on the positive side of the voter costs three times as much (distance(voter, candidate))"""
+    import numpy as np
+
+    d = np.asarray(c, dtype=float) - np.asarray(v, dtype=float)
+    return float(np.where(d > 0, 3 * d, -d).sum())
+
+
+DISTANCES = {"l1": _l1, "directional": _directional}
+
+
 def build(case):
     """-> callable producing the generator's raw output; raises whatever the real code raises"""
     import numpy as np
@@ -155,16 +176,18 @@ def build(case):
             g = bg.Spatial(candidates=list(case["candidates"]))
         else:
             d = case.get("dim", 2)
+            extra = {"distance": DISTANCES[case["distance"]]} if case.get("distance") else {}
             g = bg.Spatial(candidates=list(case["candidates"]), voter_dist=np.random.normal, voter_dist_kwargs={"loc": 0.0, "scale": 1.0, "size": d},
-                           candidate_dist=np.random.uniform, candidate_dist_kwargs={"low": -1.0, "high": 1.0, "size": d})
+                           candidate_dist=np.random.uniform, candidate_dist_kwargs={"low": -1.0, "high": 1.0, "size": d}, **extra)
         return lambda: g.generate_profile(N)
     if gen == "ClusteredSpatial":
         if case.get("defaults"):
             g = bg.ClusteredSpatial(candidates=list(case["candidates"]))
         else:
             d = case.get("dim", 2)
+            extra = {"distance": DISTANCES[case["distance"]]} if case.get("distance") else {}
             g = bg.ClusteredSpatial(candidates=list(case["candidates"]), voter_dist=np.random.normal, voter_dist_kwargs={"scale": 0.5, "size": d},
-                                    candidate_dist=np.random.uniform, candidate_dist_kwargs={"low": 0.0, "high": 1.0, "size": d})
+                                    candidate_dist=np.random.uniform, candidate_dist_kwargs={"low": 0.0, "high": 1.0, "size": d}, **extra)
         per = dict(case["per_candidate"])
         return lambda: g.generate_profile_with_dict(per)
     slates = {b: list(v) for b, v in case["slates"].items()}
